@@ -469,7 +469,8 @@ def check_construct(case, ctx: Ctx):
     if wk == "int":
         kw["weights"] = np.array(case["weights"], dtype=np.int64)
     elif wk == "float":
-        kw["weights"] = np.array(case["weights"], dtype=np.float64)
+        # float weights of any width are float weights
+        kw["weights"] = np.array(case["weights"], dtype=case.get("wdtype") or np.float64)
     if dt:
         kw["dtype"] = dt
     ctx.label(f"w_{wk}", f"dtype_{dt}")
@@ -497,7 +498,8 @@ def construct_cases(draw, tier="quick"):
     data = draw(gen.values_for(ps, 0, 20))
     wk = draw(st.sampled_from(["none", "int", "float"]))
     ws = None if wk == "none" else draw(st.lists(st.integers(0, 5) if wk == "int" else gen.dyadics(32, 2), min_size=len(data), max_size=len(data)))
-    return {"pairs": ps, "data": data, "wkind": wk, "weights": ws, "dtype": draw(st.sampled_from([None] + DTYPES[:6])), "nd": draw(st.booleans())}
+    return {"pairs": ps, "data": data, "wkind": wk, "weights": ws, "dtype": draw(st.sampled_from([None] + DTYPES[:6])), "nd": draw(st.booleans()),
+            "wdtype": draw(st.sampled_from([None, None, "float32", "float16", "float64"]))}
 
 
 FINDINGS = []
@@ -508,3 +510,4 @@ SUBS = [
 ]
 
 RULE += ' Also: assignment to frequencies / errors2 with arrays of other element types; numpy scalar weights of several widths in fill; contents next to the limits of int16 / int32 / float16.'
+RULE += ' construct: float weight arrays of float16 / float32 / float64 with an integer dtype requested.'
